@@ -730,7 +730,8 @@ def no_retries_edges(b):
     for c2 in q.conds(b):
         if c2.kind == "cmp" and c2.op in ("Eq", "Ne"):
             both = pr.of_operand(c2.lhs) | pr.of_operand(c2.rhs)
-            if has_root(both, "field", "ReceiveFrameFut", "retries_left") and has_root(both, "const", 0) and not has_root(both, "binop"):
+            direct = q.is_field_read(b, c2.lhs, "ReceiveFrameFut", "retries_left") or q.is_field_read(b, c2.rhs, "ReceiveFrameFut", "retries_left")
+            if has_root(both, "field", "ReceiveFrameFut", "retries_left") and has_root(both, "const", 0) and (direct or not has_root(both, "binop")):
                 t = c2.true_target() if c2.op == "Eq" else c2.false_target()
                 if t is not None:
                     out.append((c2.bb, t))
